@@ -10,7 +10,9 @@ Search (direct oracle, implementation outputs only): member list != {merchant | 
 own evaluate_section_filter is true on the merchant's own payments}; membership changes when other views are added /
 removed / reordered; view total != sum of member totals; months / total / cv / by() probes != independent
 re-computation (fractions.Fraction, strftime); a filter that must raise lists somebody or aborts the run; a view
-that tests a variable differs from the view that tests the variable's definition."""
+that tests a variable differs from the view that tests the variable's definition; a chained comparison
+`lo OP X OP hi` (in a filter or a variable) differs from its conjunction twin `lo OP X and X OP hi` in the same file or
+from the verdict recomputed from the independently recomputed X (X below / inside / above / on the bounds)."""
 import ast
 import copy
 import json
@@ -114,6 +116,19 @@ def ref_total(m):
 
 def ref_months(m):
     return len({t['d'][:7] for t in m['txns']})
+
+
+def chain_value(prim, m):
+    return {'months': lambda: Fraction(ref_months(m)), 'total': lambda: ref_total(m),
+            'count': lambda: Fraction(len(m['txns']))}[prim]()
+
+
+def chain_truth(meta, m):
+    """lo OP1 X OP2 hi, from the independently recomputed X"""
+    import operator
+    ops = {'<': operator.lt, '<=': operator.le, '>': operator.gt, '>=': operator.ge}
+    x, a, b = chain_value(meta['prim'], m), Fraction(*meta['a']), Fraction(*meta['b'])
+    return ops[meta['ops'][0]](a, x) and ops[meta['ops'][1]](x, b)
 
 
 def ref_cv2(m):
@@ -390,7 +405,46 @@ def gen_case(rnd, focus=None):
                 case['globals'].append([name, e])
             case['views'].append(va)
             case['views'].append({'name': f'TwB{ia}', 'vars': [], 'filter': f'({e})'})
-    if rnd.random() < .05 and len(case['views']) >= 2:
+    # chained comparisons: `lo OP1 X OP2 hi` must mean `lo OP1 X and X OP2 hi` (twin view, same file) and must
+    # agree with the verdict recomputed from the independently recomputed primitive
+    shadow_names = {n for n, _ in case['globals']}
+    if rnd.random() < .45 and not ({'months', 'total', 'count', 'payments', 'rng'} & shadow_names):
+        m = rnd.choice(live)
+        prim = rnd.choice(['months', 'total', 'count'])
+        x = chain_value(prim, m)
+        step = Fraction(1) if prim != 'total' else rnd.choice([Fraction(1, 64), Fraction(1), abs(x) / 2 + 1])
+        pos = rnd.choice(['below', 'inside', 'above', 'inside', 'edge'])     # where X sits relative to [lo, hi]
+        if pos == 'below':
+            lo, hi = x + step, x + 3 * step
+        elif pos == 'above':
+            lo, hi = x - 3 * step, x - step
+        elif pos == 'edge':
+            lo, hi = rnd.choice([(x, x + step), (x - step, x), (x, x)])
+        else:
+            lo, hi = x - step, x + step
+        if rnd.random() < .5:
+            o1, o2, a, b = rnd.choice(['<', '<=']), rnd.choice(['<', '<=']), lo, hi       # lo <= X <= hi
+        else:
+            o1, o2, a, b = rnd.choice(['>', '>=']), rnd.choice(['>', '>=']), hi, lo       # hi >= X >= lo
+        src = {'months': 'months', 'total': 'total', 'count': 'count(payments)'}[prim]
+        la, lb = (str(int(a)), str(int(b))) if prim != 'total' else (flit(a), flit(b))
+        chain = f'{la} {o1} {src} {o2} {lb}'
+        conj = f'{la} {o1} {src} and {src} {o2} {lb}'
+        ia = len(case['views'])
+        meta = {'prim': prim, 'ops': [o1, o2], 'a': [a.numerator, a.denominator], 'b': [b.numerator, b.denominator],
+                'twin_name': f'ChB{ia}'}
+        where = rnd.choice(['filter', 'filter', 'global', 'local'])
+        if where == 'filter':
+            va = {'name': f'ChA{ia}', 'vars': [], 'filter': chain, 'chain': meta}
+        elif where == 'global':
+            case['globals'].append(['rng', chain])
+            va = {'name': f'ChA{ia}', 'vars': [], 'filter': 'rng', 'chain': meta}
+        else:
+            va = {'name': f'ChA{ia}', 'vars': [['rng', chain]], 'filter': 'rng', 'chain': meta}
+        case['views'].append(va)
+        case['views'].append({'name': f'ChB{ia}', 'vars': [], 'filter': conj})
+    if rnd.random() < .05 and len(case['views']) >= 2 and 'chain' not in case['views'][0] and \
+            not case['views'][-1]['name'].startswith('Ch'):
         case['views'][-1]['name'] = case['views'][0]['name']          # duplicate view name
     rnd.shuffle(case['views']) if not any('twin' in v for v in case['views']) else None
     case['text_style'] = rnd.randint(0, 10 ** 6)
@@ -577,6 +631,18 @@ def oracle(case, results):
                 if sorted(members) != sorted(m2):
                     sig = 'C10/mixed-case-variable-unreachable' if v['twin_var'] != v['twin_var'].lower() else None
                     bad.append(('variable-means-its-definition', sig, {'variable': v['twin_var'], 'view_with_variable': members, 'view_with_definition': m2}))
+        if 'chain' in v and names.count(v['name']) == 1 and \
+                not ({'months', 'total', 'count', 'payments'} & (shadowed - {'rng'})):
+            ch = v['chain']
+            expect_ch = sorted(m['name'] for m in ms if not spec_excluded(m) and chain_truth(ch, m))
+            if sorted(members) != expect_ch:
+                bad.append(('chain-recomputed', None, {'view': v['name'], 'filter': v['filter'], 'chain': dict(case['globals'] + v['vars']).get('rng', v['filter']),
+                                                      'listed': members, 'recomputed_true_of': expect_ch}))
+            if ch['twin_name'] in got and names.count(ch['twin_name']) == 1:
+                m2 = got[ch['twin_name']][0]
+                if sorted(members) != sorted(m2):
+                    bad.append(('chain-means-conjunction', None, {'chained_view': v['name'], 'lists': members,
+                                                                 'conjunction_view': ch['twin_name'], 'lists_': m2}))
         for m in members:
             mm = [x for x in ms if x['name'] == m]
             if mm and spec_excluded(mm[0]):
@@ -1037,6 +1103,13 @@ def corpus_cases():
     out = [mk(docs, [A, Bm, Cm], [('is_frequent', 'months >= 6')])]
     out.append(mk([{'name': 'D3', 'vars': [], 'filter': 'count(sum(by("day"))) == 3', 'probe': ['groups', 'day', 3]},
                    {'name': 'W', 'vars': [], 'filter': 'max(count(by("week"))) == 1', 'probe': ['biggest', 'week', 1]}], [A]))
+    # chained comparison with the middle operand above (Bolt: 7 months) and below (Acme: 2) both bounds
+    out.append(mk([{'name': 'ChA0', 'vars': [], 'filter': '3 <= months <= 6',
+                    'chain': {'prim': 'months', 'ops': ['<=', '<='], 'a': [3, 1], 'b': [6, 1], 'twin_name': 'ChB0'}},
+                   {'name': 'ChB0', 'vars': [], 'filter': '3 <= months and months <= 6'},
+                   {'name': 'ChA2', 'vars': [['rng', '9 >= count(payments) >= 5']], 'filter': 'rng',
+                    'chain': {'prim': 'count', 'ops': ['>=', '>='], 'a': [9, 1], 'b': [5, 1], 'twin_name': 'ChB2'}},
+                   {'name': 'ChB2', 'vars': [], 'filter': '9 >= count(payments) and count(payments) >= 5'}], [A, Bm, Cm]))
     return out
 
 
